@@ -391,8 +391,17 @@ def run_ops(ctx: Ctx, ops: List[dict]) -> None:
         if a is not None:
             a.cur_op = rec
         w.history.append(rec)
+        lf = getattr(ctx, "line_fault", None)
+        tracing = lf is not None and lf.get("op_index", 0) == i
         try:
-            rec["result"] = _jsonable(exec_op(ctx, op, rec))
+            if tracing:
+                _install_line_tracer(lf)
+            try:
+                rec["result"] = _jsonable(exec_op(ctx, op, rec))
+            finally:
+                if tracing:
+                    import sys as _sys
+                    _sys.settrace(None)
             rec["outcome"] = "ok"
         except (SimDead, SimKilled):
             rec["outcome"] = "died"
@@ -431,3 +440,30 @@ def _jsonable(x):
     if isinstance(x, (list, tuple)):
         return [_jsonable(v) for v in x]
     return repr(x)
+
+
+def _install_line_tracer(lf: dict) -> None:
+    """Line-level interrupt (F5, thorough tier): count 'line' events executed inside datashard source files by
+    this thread and raise lf['exc'] from the trace function at the lf['k']-th one, which injects the exception
+    into the traced frame at that line (a deterministic model of an asynchronous KeyboardInterrupt/SystemExit).
+    With k=None it only counts (reference run); lf['count'] holds the running count."""
+    import sys
+    import datashard
+    src = os.path.dirname(os.path.realpath(datashard.__file__))
+    lf.setdefault("count", 0)
+    k = lf.get("k")
+    exc = SystemExit if lf.get("exc") == "SystemExit" else KeyboardInterrupt
+
+    def local(frame, event, arg):
+        if event == "line":
+            lf["count"] += 1
+            if k is not None and lf["count"] == k and not lf.get("fired"):
+                lf["fired"] = (os.path.basename(frame.f_code.co_filename), frame.f_lineno, frame.f_code.co_name)
+                raise exc()
+        return local
+
+    def glob(frame, event, arg):
+        if event == "call" and frame.f_code.co_filename.startswith(src):
+            return local
+        return None
+    sys.settrace(glob)
